@@ -5,7 +5,7 @@
    kind i = true: pack i is a tree pack.  content k: the bytes that belong to id k
    (content addressing: the same id is always written with the same bytes). *)
 From Verif.Base Require Import Tactics.
-From Verif.C16 Require Import ModelBase Extracted Model Proofs Proofs2.
+From Verif.C16 Require Import ModelBase Extracted Model Proofs Proofs2 Proofs3.
 Local Open Scope N_scope.
 
 (* After EVERY inner call (micro-step) of EVERY sequence of write_bytes / remove / save_config
@@ -73,3 +73,42 @@ Theorem read_full_data_pack_refuted :
     hc_read_full x Pack i = None.
 Proof. exact read_full_data_pack_refuted_lemma. Qed.
 Print Assumptions read_full_data_pack_refuted.
+
+(* The repair (repair_hotcold_except_packs followed by repair_hotcold_packs, tp = the tree packs
+   named by the index) on a healthy repository whose hot store was damaged by ANY sequence of
+   removals and truncations of hot files: afterwards the hot store is complete again (identical
+   bytes, no data pack), and every file of the cold store is still there with its bytes. *)
+Theorem repair_restores_hot : forall kind content tp x ds,
+  (forall i, mem i tp = kind i) ->
+  I kind content x ->
+  let y := repair_all tp (damage_hot ds x) in
+  HotComplete kind y /\ (forall k b, get k (cold x) = Some b -> get k (cold y) = Some b).
+Proof. intros kind content tp x ds. exact (repair_after_damage_lemma kind content tp x ds eq_refl). Qed.
+Print Assumptions repair_restores_hot.
+
+Example repair_hyps_sat :
+  (forall i, mem i [2] = N.eqb i 2) /\ I (fun i => N.eqb i 2) (fun _ => [7; 7]) empty_st.
+Proof. split; [intro i; cbn; rewrite orb_false_r; reflexivity | apply I_empty]. Qed.
+
+(* The same for any state in which copies of equal size are identical (no reference to how the
+   damage came about). *)
+Theorem repair_restores_hot_general : forall kind tp x,
+  (forall i, mem i tp = kind i) ->
+  (forall ft, SameSizeSame kind ft x) -> no_data_in_hot kind x ->
+  let y := repair_all tp x in
+  HotComplete kind y /\ (forall k b, get k (cold x) = Some b -> get k (cold y) = Some b).
+Proof. intros kind tp x. exact (repair_restores_lemma kind tp x eq_refl). Qed.
+Print Assumptions repair_restores_hot_general.
+
+(* FINDING (repaired in the source tree by a fix: commit).  With the rule get_missing_files had
+   before the fix - every hot id that is not "common" (same size on both sides) is copied to the
+   cold store - a hot file that was cut short replaces the intact cold file; with the rule of
+   the tree as it is now the cold file stays and the hot file is recreated from it. *)
+Theorem repair_unfixed_rule_destroys_cold :
+  exists x k b,
+    get k (cold x) = Some b /\
+    get k (cold (repair_type_r HotOnlyNotCommon (fst k) (fun _ => true) x)) <> Some b /\
+    get k (cold (repair_type_r HotOnlyNotInCold (fst k) (fun _ => true) x)) = Some b /\
+    get k (hot (repair_type_r HotOnlyNotInCold (fst k) (fun _ => true) x)) = Some b.
+Proof. exact repair_unfixed_rule_destroys_cold_lemma. Qed.
+Print Assumptions repair_unfixed_rule_destroys_cold.
